@@ -33,10 +33,15 @@ type C15Case struct {
 	Class string
 	Stage string // before-handshake during-verification ready
 	Bytes []byte
+	// ReqOwn (stage ready-block-requested): request the block whose header is in Bytes instead of
+	// an unrelated hash, so that the input reaches the block handler as the requested block
+	ReqOwn bool
 	// KeepOpen: do not close the peer side after sending (the node must cope either way)
 }
 
-var c15Stages = []string{"before-handshake", "during-verification", "ready"}
+func c15(class, stage string, b []byte) C15Case { return C15Case{Class: class, Stage: stage, Bytes: b} }
+
+var c15Stages = []string{"before-handshake", "during-verification", "ready", "ready-block-requested"}
 
 func varint(v uint64) []byte {
 	var b bytes.Buffer
@@ -53,7 +58,7 @@ var hugeCounts = []uint64{0xfd00, 1 << 16, 1 << 24, 1 << 31, 1 << 32, 1 << 40, 1
 func c15Cases(seed int64, batch, perBatch int) []C15Case {
 	rng := common.Rng(seed, int64(150000+batch))
 	var out []C15Case
-	stage := func() string { return c15Stages[rng.Intn(3)] }
+	stage := func() string { return c15Stages[rng.Intn(4)] }
 	validMsgs := func() map[string][]byte {
 		hs := make([]bitcoin.Hash32, 3)
 		for i := range hs {
@@ -82,41 +87,41 @@ func c15Cases(seed int64, batch, perBatch int) []C15Case {
 		case k < 2:
 			b := make([]byte, 1+rng.Intn(2000))
 			rng.Read(b)
-			out = append(out, C15Case{"random-bytes", stage(), b})
+			out = append(out, c15("random-bytes", stage(), b))
 		case k < 3:
 			b := make([]byte, 20+rng.Intn(200))
 			rng.Read(b)
 			binary.LittleEndian.PutUint32(b, Magic)
-			out = append(out, C15Case{"magic-then-random", stage(), b})
+			out = append(out, c15("magic-then-random", stage(), b))
 		case k < 8: // mutated valid message
 			cmd := cmds[rng.Intn(len(cmds))]
 			f := Frame(cmd, vm[cmd])
 			switch rng.Intn(6) {
 			case 0:
 				f[20] ^= 0xff
-				out = append(out, C15Case{"bad-checksum/" + cmd, stage(), f})
+				out = append(out, c15("bad-checksum/" + cmd, stage(), f))
 			case 1:
 				binary.LittleEndian.PutUint32(f[16:], uint32(len(f)-24)+uint32(1+rng.Intn(50)))
-				out = append(out, C15Case{"length-plus/" + cmd, stage(), f})
+				out = append(out, c15("length-plus/" + cmd, stage(), f))
 			case 2:
 				if len(f) > 25 {
 					binary.LittleEndian.PutUint32(f[16:], uint32(len(f)-24)-uint32(1+rng.Intn(len(f)-24)))
 				}
-				out = append(out, C15Case{"length-minus/" + cmd, stage(), f})
+				out = append(out, c15("length-minus/" + cmd, stage(), f))
 			case 3:
 				cut := rng.Intn(len(f))
-				out = append(out, C15Case{"truncated/" + cmd, stage(), f[:cut]})
+				out = append(out, c15("truncated/" + cmd, stage(), f[:cut]))
 			case 4:
 				decl := []uint32{1 << 20, 1 << 31, 0xfffffffe, 0xffffffff}[rng.Intn(4)]
 				binary.LittleEndian.PutUint32(f[16:], decl)
-				out = append(out, C15Case{fmt.Sprintf("declared-long-then-close/%s/%d", cmd, decl), stage(), f})
+				out = append(out, c15(fmt.Sprintf("declared-long-then-close/%s/%d", cmd, decl), stage(), f))
 			default:
 				if len(f) > 24 {
 					f[24+rng.Intn(len(f)-24)] ^= byte(1 + rng.Intn(255))
 					cs := checksum(f[24:])
 					copy(f[20:24], cs[:])
 				}
-				out = append(out, C15Case{"payload-byte-flip/" + cmd, stage(), f})
+				out = append(out, c15("payload-byte-flip/" + cmd, stage(), f))
 			}
 		case k < 10: // extended header with hostile lengths
 			cmd := []string{"tx", "block", "zzz", "headers", "ping"}[rng.Intn(5)]
@@ -126,61 +131,61 @@ func c15Cases(seed int64, batch, perBatch int) []C15Case {
 			if cmd == "tx" && rng.Intn(2) == 0 {
 				tail = TxBytes(MkTx(rng, 20))
 			}
-			out = append(out, C15Case{fmt.Sprintf("ext-declared-length/%s/%d", cmd, l), stage(), append(ExtHeader(cmd, l), tail...)})
+			out = append(out, c15(fmt.Sprintf("ext-declared-length/%s/%d", cmd, l), stage(), append(ExtHeader(cmd, l), tail...)))
 		case k < 11: // classic header declaring a huge tx/block/unknown
 			cmd := []string{"tx", "block", "zzz", "reject", "version", "addr"}[rng.Intn(6)]
 			l := []uint32{1 << 31, 0xffffffff, 1 << 30}[rng.Intn(3)]
 			tail := make([]byte, rng.Intn(100))
 			rng.Read(tail)
-			out = append(out, C15Case{fmt.Sprintf("classic-declared-length/%s/%d", cmd, l), stage(), append(FrameHeader(Magic, cmd, l, [4]byte{}), tail...)})
+			out = append(out, c15(fmt.Sprintf("classic-declared-length/%s/%d", cmd, l), stage(), append(FrameHeader(Magic, cmd, l, [4]byte{}), tail...)))
 		case k < 13: // headers with hostile bits / timestamps (ready stage reaches ProcessHeader)
 			exp := uint32(rng.Intn(256))
 			mant := mantissasC15[rng.Intn(len(mantissasC15))]
 			hd := &wire.BlockHeader{Version: 1, PrevBlock: *MainGenesisHash(), Timestamp: []uint32{0, 1, 0x7fffffff, 0xffffffff, 1231006505}[rng.Intn(5)], Bits: exp<<24 | mant, Nonce: rng.Uint32()}
-			out = append(out, C15Case{fmt.Sprintf("headers-bits/exp=%d/mant=%06x", exp, mant), "ready", Frame("headers", HeadersPayload([]*wire.BlockHeader{hd}))})
+			out = append(out, c15(fmt.Sprintf("headers-bits/exp=%d/mant=%06x", exp, mant), "ready", Frame("headers", HeadersPayload([]*wire.BlockHeader{hd}))))
 		case k < 17: // hostile counts inside otherwise tiny messages
 			c := hugeCounts[rng.Intn(len(hugeCounts))]
 			switch rng.Intn(10) {
 			case 0:
 				p := append(le32(1), varint(c)...)
 				p = append(p, bytes.Repeat([]byte{0}, 45)...)
-				out = append(out, C15Case{fmt.Sprintf("tx-input-count/%d", c), stage(), Frame("tx", p)})
+				out = append(out, c15(fmt.Sprintf("tx-input-count/%d", c), stage(), Frame("tx", p)))
 			case 1:
 				p := append(le32(1), varint(0)...)
 				p = append(p, varint(c)...)
 				p = append(p, bytes.Repeat([]byte{0}, 45)...)
-				out = append(out, C15Case{fmt.Sprintf("tx-output-count/%d", c), stage(), Frame("tx", p)})
+				out = append(out, c15(fmt.Sprintf("tx-output-count/%d", c), stage(), Frame("tx", p)))
 			case 2:
 				p := append(le32(1), varint(1)...)
 				p = append(p, make([]byte, 36)...)
 				p = append(p, varint(c)...)
 				p = append(p, bytes.Repeat([]byte{0}, 20)...)
-				out = append(out, C15Case{fmt.Sprintf("tx-script-length/%d", c), stage(), Frame("tx", p)})
+				out = append(out, c15(fmt.Sprintf("tx-script-length/%d", c), stage(), Frame("tx", p)))
 			case 3:
 				p := append(le32(1), varint(c)...)
 				p = append(p, bytes.Repeat([]byte{0}, 45)...)
-				out = append(out, C15Case{fmt.Sprintf("ext-tx-input-count/%d", c), stage(), ExtFrame("tx", p)})
+				out = append(out, c15(fmt.Sprintf("ext-tx-input-count/%d", c), stage(), ExtFrame("tx", p)))
 			case 4:
-				out = append(out, C15Case{fmt.Sprintf("inv-count/%d", c), stage(), Frame("inv", append(varint(c), make([]byte, 36)...))})
+				out = append(out, c15(fmt.Sprintf("inv-count/%d", c), stage(), Frame("inv", append(varint(c), make([]byte, 36)...))))
 			case 5:
-				out = append(out, C15Case{fmt.Sprintf("addr-count/%d", c), stage(), Frame("addr", append(varint(c), make([]byte, 30)...))})
+				out = append(out, c15(fmt.Sprintf("addr-count/%d", c), stage(), Frame("addr", append(varint(c), make([]byte, 30)...))))
 			case 6:
-				out = append(out, C15Case{fmt.Sprintf("headers-count/%d", c), stage(), Frame("headers", append(varint(c), make([]byte, 81)...))})
+				out = append(out, c15(fmt.Sprintf("headers-count/%d", c), stage(), Frame("headers", append(varint(c), make([]byte, 81)...))))
 			case 7:
 				p := append(varint(2), 't', 'x', 0x10)
 				p = append(p, varint(c)...)
 				p = append(p, 'x')
-				out = append(out, C15Case{fmt.Sprintf("reject-reason-length/%d", c), stage(), Frame("reject", p)})
+				out = append(out, c15(fmt.Sprintf("reject-reason-length/%d", c), stage(), Frame("reject", p)))
 			case 8:
 				v := VersionPayload(1)
 				// user agent length is the varint after 80 bytes
 				p := append(append([]byte{}, v[:80]...), varint(c)...)
 				p = append(p, 'a', 'b', 'c', 0, 0, 0, 0, 0)
-				out = append(out, C15Case{fmt.Sprintf("version-useragent-length/%d", c), stage(), Frame("version", p)})
+				out = append(out, c15(fmt.Sprintf("version-useragent-length/%d", c), stage(), Frame("version", p)))
 			default:
 				cg := &chainGen{prev: *MainGenesisHash(), ts: 1231006505, rng: rng}
 				p := BlockPayload(cg.next(1)[0], c, []*wire.MsgTx{MkTx(rng, 5)})
-				out = append(out, C15Case{fmt.Sprintf("block-tx-count/%d", c), stage(), Frame("block", p)})
+				out = append(out, c15(fmt.Sprintf("block-tx-count/%d", c), stage(), Frame("block", p)))
 			}
 		case k < 18: // floods that fill the handshake channel
 			n := []int{11, 12, 30}[rng.Intn(3)]
@@ -193,25 +198,59 @@ func c15Cases(seed int64, batch, perBatch int) []C15Case {
 					b = append(b, Frame("version", VersionPayload(int32(i)))...)
 				}
 			}
-			out = append(out, C15Case{fmt.Sprintf("%s-flood/%d", cmd, n), stage(), b})
+			out = append(out, c15(fmt.Sprintf("%s-flood/%d", cmd, n), stage(), b))
 		case k < 19: // wrong network magic / bad command characters
 			f := Frame("ping", PingPayload(1))
 			if rng.Intn(2) == 0 {
 				binary.LittleEndian.PutUint32(f, rng.Uint32())
-				out = append(out, C15Case{"wrong-magic", stage(), f})
+				out = append(out, c15("wrong-magic", stage(), f))
 			} else {
 				f[4], f[5] = 0xff, 0xfe
-				out = append(out, C15Case{"invalid-command-characters", stage(), f})
+				out = append(out, c15("invalid-command-characters", stage(), f))
 			}
 		default: // several protoconf / pong with wrong nonce / zero-length everything
-			switch rng.Intn(3) {
+			switch rng.Intn(7) {
+			case 3, 4, 5, 6: // blocks while a block request is outstanding (the block handler is installed)
+				cg := &chainGen{prev: *MainGenesisHash(), ts: 1231006505, rng: rng}
+				hd := cg.next(1)[0]
+				var txs []*wire.MsgTx
+				for j := 1 + rng.Intn(4); j > 0; j-- {
+					txs = append(txs, MkTx(rng, rng.Intn(100)))
+				}
+				pl := BlockPayload(hd, uint64(len(txs)), txs)
+				own := rng.Intn(2) == 0
+				kind := "well-formed"
+				switch rng.Intn(5) {
+				case 0:
+					pl = pl[:80+rng.Intn(len(pl)-80)]
+					kind = "cut-after-header"
+				case 1:
+					pl = BlockPayload(hd, uint64(len(txs))+1+uint64(rng.Intn(3)), txs)
+					kind = "count-above-txs"
+				case 2:
+					pl = append(pl, TxBytes(MkTx(rng, 20))...)
+					kind = "tx-beyond-count"
+				case 3:
+					rng.Read(pl[80+rng.Intn(len(pl)-80):])
+					kind = "garbage-after-header"
+				}
+				f := Frame("block", pl)
+				if rng.Intn(2) == 0 {
+					f = ExtFrame("block", pl)
+					kind += "-ext"
+				}
+				req := "other-hash"
+				if own {
+					req = "own-hash"
+				}
+				out = append(out, C15Case{Class: "block-while-requested/" + kind + "/" + req, Stage: "ready-block-requested", Bytes: f, ReqOwn: own})
 			case 0:
-				out = append(out, C15Case{"protoconf-twice", stage(), append(Frame("protoconf", vm["protoconf"]), Frame("protoconf", vm["protoconf"])...)})
+				out = append(out, c15("protoconf-twice", stage(), append(Frame("protoconf", vm["protoconf"]), Frame("protoconf", vm["protoconf"])...)))
 			case 1:
-				out = append(out, C15Case{"pong-wrong-nonce", stage(), Frame("pong", PingPayload(rng.Uint64()))})
+				out = append(out, c15("pong-wrong-nonce", stage(), Frame("pong", PingPayload(rng.Uint64()))))
 			default:
 				cmd := cmds[rng.Intn(len(cmds))]
-				out = append(out, C15Case{"empty-payload/" + cmd, stage(), Frame(cmd, nil)})
+				out = append(out, c15("empty-payload/" + cmd, stage(), Frame(cmd, nil)))
 			}
 		}
 	}
@@ -235,6 +274,22 @@ func classRoot(c string) string {
 
 type c15Canary struct {
 	s *Session
+}
+
+// blockHeaderOffset returns where the 80-byte block header starts in a classic (24) or extended
+// (44) block frame, 0 if the bytes are no block frame.
+func blockHeaderOffset(b []byte) int {
+	if len(b) < 24 {
+		return 0
+	}
+	cmd := string(bytes.TrimRight(b[4:16], "\x00"))
+	switch {
+	case cmd == "block":
+		return 24
+	case cmd == "extmsg" && len(b) >= 44 && string(bytes.TrimRight(b[24:36], "\x00")) == "block":
+		return 44
+	}
+	return 0
 }
 
 func reverse32(b []byte) []byte {
@@ -269,9 +324,28 @@ func runC15Case(ctx context.Context, c C15Case, canary *Session) string {
 		if _, err := s.Handshake(15 * time.Second); err != nil {
 			return "inconclusive:handshake"
 		}
-	case "ready":
+	case "ready", "ready-block-requested":
 		if err := s.Verify(15 * time.Second); err != nil {
 			return "inconclusive:verify"
+		}
+		if c.Stage == "ready-block-requested" {
+			var h bitcoin.Hash32
+			for i := range h {
+				h[i] = 0xaa
+			}
+			if off := blockHeaderOffset(c.Bytes); c.ReqOwn && off > 0 && len(c.Bytes) >= off+80 {
+				hd := &wire.BlockHeader{}
+				if hd.Deserialize(bytes.NewReader(c.Bytes[off:off+80])) == nil {
+					h = *hd.BlockHash()
+				}
+			}
+			if err := s.Node.RequestBlock(ctx, h, func(ctx context.Context, header *wire.BlockHeader, n uint64, ch <-chan *wire.MsgTx) error {
+				for range ch {
+				}
+				return nil
+			}, func(context.Context) {}); err != nil {
+				return "inconclusive:request-block"
+			}
 		}
 	}
 	s.Peer.SendRaw(c.Bytes)
